@@ -519,6 +519,11 @@ pub fn gen_case(id: &str, rng: &mut Rng) -> Result<(Vec<u8>, Vec<Inj>, Vec<(u32,
                 for b in &st.blockish {
                     if ops[*b].name != "Loop" && rng.chance(1, 3) {
                         push(&mut plan, fid, *b, Mode::SemAfter, Probe::Host, rng);
+                        // 1 in 8: withdrawn again (must never fire)
+                        if rng.chance(1, 8) {
+                            let own = plan.last().cloned().unwrap();
+                            plan.push(Inj { mode: Mode::ClearSemAfter, path: if rng.bool() { Path::Iter } else { Path::Modifier }, ..own });
+                        }
                     }
                 }
                 for b in &branchy {
@@ -581,7 +586,17 @@ pub fn gen_case(id: &str, rng: &mut Rng) -> Result<(Vec<u8>, Vec<Inj>, Vec<(u32,
             if (0..pat.len()).all(|j| ops[i + j].name == pat[j]) {
                 if rng.bool() {
                     plan.retain(|x| !(x.func == fid && x.at >= i && x.at < i + pat.len() && !matches!(x.mode, Mode::FuncEntry | Mode::FuncExit)));
+                    // C18, 1 in 2: a block-entry probe on the replaced construct itself, issued before or after the alternate:
+                    // it disappears with the construct (never fires)
+                    let doomed = id == "C18" && rng.bool();
+                    let doomed_first = rng.bool();
+                    if doomed && doomed_first {
+                        push(&mut plan, fid, i, Mode::BlockEntry, Probe::Host, rng);
+                    }
                     push(&mut plan, fid, i, Mode::BlockAlt, Probe::TickCopy, rng);
+                    if doomed && !doomed_first {
+                        push(&mut plan, fid, i, Mode::BlockEntry, Probe::Host, rng);
+                    }
                 }
                 i += pat.len();
             } else {
@@ -847,6 +862,11 @@ impl Sem {
                     Mode::SemAfter => Some(Mode::ClearSemAfter),
                     _ => None,
                 };
+                // on a construct that a (neutral) block alternate replaces: gone with the construct
+                if accepted.iter().any(|p| p.probe == Probe::TickCopy && p.func == inj.func && inj.at >= p.at && inj.at < p.at + 6) {
+                    exp.clear();
+                    out.ob("probe-on-replaced-construct_checked");
+                }
                 // a plain `after` probe with the same body on the same construct (C18) reports at the same moments
                 if inj.mode == Mode::BlockEntry {
                     let twins = accepted.iter().filter(|p| p.mode == Mode::After && p.uid == inj.uid && p.func == inj.func && p.at == inj.at).count();
